@@ -1,4 +1,345 @@
+import L4.Proofs.Res
 import L4.Matchers.Small
+import L4.Matchers.Winbox
+import L4.Matchers.Wireguard
+import L4.Matchers.More
+import L4.Gen.Census
+/-!
+# C04 — No remote input makes a matcher panic or allocate without bound
+
+For the executable models of the matchers (which mirror every index / slice / `make` of the Go code with checked
+primitives): for **every** byte string the verdict is never `panic`, and the read buffers allocated are bounded by a
+small multiple of the matching limit (`allocBound` = 32 × MaxMatchingBytes).
+-/
 namespace L4.C04
-theorem placeholder : True := trivial
+open L4 L4.M L4.Gen L4.Prog
+
+def allocBound : Nat := 32 * layer4_MaxMatchingBytes
+
+/-- a matcher program is total: never panics, never allocates more than the bound -/
+def Total (p : Prog) : Prop := ∀ bs : Bytes, p.run bs ≠ .panic ∧ p.alloc bs ≤ allocBound
+
+theorem total_of {p : Prog} (h1 : Safe p) (h2 : AllocLe p allocBound) : Total p :=
+  fun bs => ⟨h1.run_ne_panic bs, h2.alloc_le bs⟩
+
+theorem ite_ne_panic (c : Prop) [Decidable c] : (if c then Verdict.yes else Verdict.no) ≠ .panic := by
+  split <;> simp
+
+theorem u8_le (b : UInt8) : b.toNat ≤ 255 := by have := b.toNat_lt; omega
+theorem be16_le (a b : UInt8) : be16 a b ≤ 65535 := by
+  have := a.toNat_lt; have := b.toNat_lt; simp only [be16]; omega
+
+/-! ## matchers without any index expression -/
+
+theorem ssh_total : Total ssh :=
+  total_of (.readFull _ _ fun _ _ => .ret _ (ite_ne_panic _))
+    (.readFull _ _ _ (by decide) fun _ _ => .ret _ _)
+
+theorem xmpp_total : Total xmpp :=
+  total_of (.readFull _ _ fun _ _ => .ret _ (ite_ne_panic _))
+    (.readFull _ _ _ (by decide) fun _ _ => .ret _ _)
+
+theorem pp_leaf (a b : Prop) [Decidable a] [Decidable b] :
+    (if a then Verdict.yes else if b then Verdict.yes else Verdict.no) ≠ .panic := by
+  split
+  · simp
+  · exact ite_ne_panic _
+
+theorem proxyProto_total : Total proxyProto :=
+  total_of (.readFull _ _ fun _ _ => .ret _ (pp_leaf _ _))
+    (.readFull _ _ _ (by decide) fun _ _ => .ret _ _)
+
+/-- regexp: `count` is a uint16 in the configuration -/
+theorem regexp_total (count : Nat) (hc : count < 65536) (re : Bytes → Bool) : Total (regexp count re) :=
+  total_of (.readFull _ _ fun _ _ => .ret _ (ite_ne_panic _))
+    (.readFull _ _ _ (by simp only [allocBound, layer4_MaxMatchingBytes, l4regexp_minCount]; split <;> omega)
+      fun _ _ => .ret _ _)
+
+theorem socks5_total (ms : List Nat) : Total (socks5 ms) := by
+  refine total_of ?_ ?_
+  · refine .readFull _ _ fun v _ => ?_
+    split
+    · exact .ret _ (by simp)
+    · exact .readFull _ _ fun n _ => .readFull _ _ fun _ _ => .ret _ (ite_ne_panic _)
+  · refine .readFull _ _ _ (by decide) fun v _ => ?_
+    split
+    · exact .ret _ _
+    · refine .readFull _ _ _ (by decide) fun n _ => .readFull _ _ _ ?_ fun _ _ => .ret _ _
+      have := u8_le (n.headD 0); simp only [allocBound, layer4_MaxMatchingBytes]; omega
+
+theorem tls_total (sub : Bytes → Bool) : Total (tls sub) := by
+  refine total_of ?_ ?_
+  · refine .readFull _ _ fun h _ => ?_
+    split
+    · exact .ret _ (by simp)
+    · exact .readFull _ _ fun _ _ => .ret _ (ite_ne_panic _)
+  · refine .readFull _ _ _ (by decide) fun h _ => ?_
+    split
+    · exact .ret _ _
+    · refine .readFull _ _ _ ?_ fun _ _ => .ret _ _
+      have := be16_le (h.getD 3 0) (h.getD 4 0); simp only [allocBound, layer4_MaxMatchingBytes]; omega
+
+theorem wireguard_total (zero : Nat) : Total (Wireguard.matcher zero) := by
+  refine total_of ?_ ?_
+  · refine .readAtLeast _ _ _ fun b _ _ => ?_
+    split
+    · exact .ret _ (ite_ne_panic _)
+    · split
+      · exact .ret _ (ite_ne_panic _)
+      · exact .ret _ (by simp)
+  · refine .readAtLeast _ _ _ _ (by decide) fun b _ _ => ?_
+    split
+    · exact .ret _ _
+    · split <;> exact .ret _ _
+
+/-! ## socks4: four checked index / slice expressions on the 8-byte buffer -/
+
+theorem socks4Body_safe (cfg : Socks4Cfg) (buf : Bytes) (h : buf.length = 8) :
+    (socks4Body cfg buf).isPanic = false ∧ ∀ v, socks4Body cfg buf = .ok v → v ≠ .panic := by
+  have i0 := idx_ok buf 0 "socks4.buf[0]" (by omega)
+  have i1 := idx_ok buf 1 "socks4.buf[1]" (by omega)
+  have s1 := slice_ok buf 2 4 "socks4.buf[2:4]" (by omega) (by omega)
+  have s2 := slice_ok buf 4 8 "socks4.buf[4:8]" (by omega) (by omega)
+  unfold socks4Body
+  simp only [i0, i1, s1, s2, Res.bind_ok]
+  constructor
+  · repeat' split
+    all_goals simp_all [Res.isPanic, pure]
+  · intro v hv
+    repeat' split at hv
+    all_goals simp_all [pure]
+    all_goals (try subst hv) <;> simp
+
+theorem socks4_total (cfg : Socks4Cfg) : Total (socks4 cfg) :=
+  total_of
+    (.readFull _ _ fun b hb => ofRes_safe _ (socks4Body_safe cfg b hb).1 (socks4Body_safe cfg b hb).2)
+    (.readFull _ _ _ (by decide) fun b _ => by
+      unfold ofRes; split <;> exact .ret _ _)
+
+/-! ## postgres: the `ReadString` scanning loop and the parameter loop -/
+
+theorem pgScan_ok (data : Bytes) (f e : Nat) (he : e ≤ data.length) :
+    ∃ e', pgScan data f e = .ok e' ∧ e ≤ e' ∧ e' ≤ data.length := by
+  induction f generalizing e with
+  | zero => exact ⟨e, rfl, Nat.le_refl _, he⟩
+  | succ f ih =>
+    unfold pgScan
+    split
+    · exact ⟨e, rfl, Nat.le_refl _, he⟩
+    · rename_i hne
+      have hlt : e < data.length := by omega
+      rw [idx_ok data e _ hlt]
+      simp only [Res.bind_ok]
+      split
+      · exact ⟨e, rfl, Nat.le_refl _, he⟩
+      · obtain ⟨e', h1, h2, h3⟩ := ih (e + 1) (by omega)
+        exact ⟨e', h1, by omega, h3⟩
+
+theorem pgReadString_ok (data : Bytes) (off : Nat) : ∃ r, pgReadString data off = .ok r := by
+  unfold pgReadString
+  split
+  · exact ⟨_, rfl⟩
+  · rename_i h
+    obtain ⟨e, h1, h2, h3⟩ := pgScan_ok data (data.length + 1) off (by omega)
+    rw [h1]
+    simp only [Res.bind_ok]
+    rw [slice_ok data off e _ h2 h3]
+    exact ⟨_, rfl⟩
+
+theorem pgParams_ok (data : Bytes) (f off n : Nat) : ∃ r, pgParams data f off n = .ok r := by
+  induction f generalizing off n with
+  | zero => exact ⟨n, rfl⟩
+  | succ f ih =>
+    unfold pgParams
+    obtain ⟨⟨k, off1⟩, h1⟩ := pgReadString_ok data off
+    rw [h1]
+    simp only [Res.bind_ok]
+    split
+    · exact ⟨n, rfl⟩
+    · obtain ⟨⟨v, off2⟩, h2⟩ := pgReadString_ok data off1
+      rw [h2]
+      simp only [Res.bind_ok]
+      exact ih off2 (n + 1)
+
+theorem pgBody_safe (data : Bytes) (h : 4 ≤ data.length) :
+    (pgBody data).isPanic = false ∧ ∀ v, pgBody data = .ok v → v ≠ .panic := by
+  unfold pgBody
+  rw [slice_ok data 0 4 _ (by omega) h]
+  simp only [Res.bind_ok]
+  split
+  · exact ⟨rfl, by intro v hv; cases hv; simp⟩
+  · split
+    · exact ⟨rfl, by intro v hv; cases hv⟩
+    · obtain ⟨n, hn⟩ := pgParams_ok data (data.length + 1) 4 0
+      rw [hn]
+      simp only [Res.bind_ok]
+      exact ⟨rfl, by intro v hv; cases hv; split <;> simp⟩
+
+theorem postgres_total : Total postgres := by
+  refine total_of ?_ ?_
+  · refine .readFull _ _ fun head _ => ?_
+    simp only []
+    split
+    · exact .ret _ (by simp)
+    · rename_i hsz
+      refine .readFull _ _ fun data hd => ?_
+      have h4 : 4 ≤ data.length := by
+        simp only [l4postgres_initMessageSizeLength] at hsz hd; omega
+      exact ofRes_safe _ (pgBody_safe data h4).1 (pgBody_safe data h4).2
+  · refine .readFull _ _ _ (by decide) fun head _ => ?_
+    simp only []
+    split
+    · exact .ret _ _
+    · rename_i hsz
+      refine .readFull _ _ _ ?_ fun data _ => ?_
+      · simp only [allocBound, layer4_MaxMatchingBytes, l4postgres_initMessageSizeLength] at hsz ⊢; omega
+      · unfold ofRes; split <;> exact .ret _ _
+
+/-- witness for the defect repaired by the `fix:` commit: with the length check removed, `len − 4` on a uint32 asks for a
+4 GiB buffer on the 4-byte input `00 00 00 00` -/
+theorem postgres_unfixed_alloc_witness : (2 ^ 32 + beNat [0, 0, 0, 0] - 4) % 2 ^ 32 > allocBound := by decide
+
+/-! ## http: the request-line test indexes relative to the first line feed -/
+
+theorem indexOf_spec (b : UInt8) (l : Bytes) (k i : Nat) (h : indexOf b l k = some i) : k ≤ i ∧ i < k + l.length := by
+  induction l generalizing k with
+  | nil => simp [indexOf] at h
+  | cons x xs ih =>
+    simp only [indexOf] at h
+    split at h
+    · cases h; simp
+    · have := ih (k + 1) h; simp; omega
+
+theorem isHttp_safe (data : Bytes) : (isHttp data).isPanic = false := by
+  unfold isHttp
+  split
+  · rfl
+  · rename_i i hi
+    have hb := indexOf_spec _ _ _ _ hi
+    split
+    · rfl
+    · rename_i h10
+      rw [idx_ok data (i - 1) _ (by omega)]
+      simp only [Res.bind_ok]
+      split
+      · rw [slice_ok data (i - 9 - 1) (i - 3 - 1) _ (by omega) (by omega)]; rfl
+      · rw [slice_ok data (i - 9) (i - 3) _ (by omega) (by omega)]; rfl
+
+theorem http_no_panic (parse : Bytes → Verdict) (hp : ∀ b, parse b ≠ .panic) (data : Bytes) : http parse data ≠ .panic := by
+  unfold http
+  have := isHttp_safe data
+  split
+  · simp_all [Res.isPanic]
+  · simp
+  · split <;> simp
+  · simp
+  · exact hp _
+
+/-! ## winbox: the chunk loop of `MessageAuth.FromBytes` and the delimiter search of `FromChunks` -/
+open L4.Winbox in
+theorem findDelim_spec (l : Bytes) (k i : Nat) (h : findDelim l k = some i) : k ≤ i ∧ i < k + l.length := by
+  induction l generalizing k with
+  | nil => simp [findDelim] at h
+  | cons x xs ih =>
+    simp only [findDelim] at h
+    split at h
+    · cases h; simp
+    · have := ih (k + 1) h; simp; omega
+
+open L4.Winbox in
+theorem fromChunks_safe (chunks : List Chunk) : (fromChunks chunks).isPanic = false := by
+  unfold fromChunks
+  split
+  · rfl
+  · simp only []
+    split
+    · rfl
+    · rename_i i hi
+      have hb := findDelim_spec _ _ _ hi
+      split
+      · rfl
+      · rename_i hne
+        rw [slice_ok _ 0 i _ (by omega) (by omega), Res.bind_ok,
+          slice_ok _ (i + 1) _ _ (by omega) (by omega), Res.bind_ok, idx_ok _ _ _ (by omega), Res.bind_ok]
+        split <;> rfl
+
+open L4.Winbox in
+theorem chunkLoop_safe (src : Bytes) (q f i : Nat) (acc : List Chunk)
+    (hq : ∀ j, j < q → j * (l4winbox_MessageChunkBytesMax + 2) < src.length) :
+    (chunkLoop src q f i acc).isPanic = false := by
+  induction f generalizing i acc with
+  | zero => rfl
+  | succ f ih =>
+    unfold chunkLoop
+    split
+    · rfl
+    · rename_i hi
+      have hp := hq i (by omega)
+      simp only []
+      rw [idx_ok _ _ _ hp, Res.bind_ok]
+      split
+      · rfl
+      · rename_i hc
+        have hlen : i * (l4winbox_MessageChunkBytesMax + 2) + 2 + (src[i * (l4winbox_MessageChunkBytesMax + 2)]).toNat ≤ src.length := by
+          simp only [not_or] at hc; omega
+        rw [idx_ok _ _ _ (by omega), Res.bind_ok]
+        split
+        · rfl
+        · rw [slice_ok _ _ _ _ (by omega) hlen, Res.bind_ok]
+          exact ih _ _
+
+open L4.Winbox in
+theorem fromBytes_safe (src : Bytes) : (fromBytes src).isPanic = false := by
+  unfold fromBytes
+  split
+  · rfl
+  · simp only []
+    have hq : ∀ j, j < (src.length + l4winbox_MessageChunkBytesMax + 1) / (l4winbox_MessageChunkBytesMax + 2) →
+        j * (l4winbox_MessageChunkBytesMax + 2) < src.length := by
+      intro j hj
+      simp only [l4winbox_MessageChunkBytesMax] at hj ⊢
+      omega
+    have h1 := chunkLoop_safe src _ ((src.length + l4winbox_MessageChunkBytesMax + 1) / (l4winbox_MessageChunkBytesMax + 2)) 0 [] hq
+    generalize chunkLoop src _ _ 0 [] = r at h1
+    cases r with
+    | ok c => exact fromChunks_safe c
+    | err _ => rfl
+    | panic _ => simp [Res.isPanic] at h1
+
+/-- witness for the defect repaired by the `fix:` commit: with the old chunk count `q = l/257 + 1` a 257-byte message
+(`FF 06` + 255 bytes) makes the loop index `src[257]` -/
+theorem winbox_unfixed_witness : ¬ (1 * (l4winbox_MessageChunkBytesMax + 2) < 257) ∧ 1 < 257 / (l4winbox_MessageChunkBytesMax + 2) + 1 := by
+  decide
+
+open L4.Winbox in
+theorem decideMsg_ne_panic (cfg : Cfg) (r : Res Msg) (h : r.isPanic = false) : decideMsg cfg r ≠ .panic := by
+  cases r with
+  | panic s => simp [Res.isPanic] at h
+  | err c => simp [decideMsg]
+  | ok m =>
+    simp only [decideMsg]
+    repeat' split
+    all_goals simp
+
+open L4.Winbox in
+theorem winbox_total (cfg : Cfg) : Total (matcher cfg) := by
+  refine total_of ?_ ?_
+  · refine .readFull _ _ fun hdr _ => ?_
+    simp only []
+    split
+    · exact .ret _ (by simp)
+    · refine .readAtLeast _ _ _ fun got _ _ => .ret _ ?_
+      split
+      · simp
+      · exact decideMsg_ne_panic cfg _ (fromBytes_safe _)
+  · refine .readFull _ _ _ (by decide) fun hdr _ => ?_
+    simp only []
+    split
+    · exact .ret _ _
+    · refine .readAtLeast _ _ _ _ ?_ fun got _ _ => .ret _ _
+      have := u8_le (hdr.headD 0)
+      by_cases h : (hdr.headD 0).toNat = l4winbox_MessageChunkBytesMax
+      · simp only [wanted, if_pos h, allocBound, layer4_MaxMatchingBytes, l4winbox_MessageAuthBytesMax]; omega
+      · simp only [wanted, if_neg h, allocBound, layer4_MaxMatchingBytes]; omega
+
 end L4.C04
